@@ -113,7 +113,9 @@ class DefinitionsReader(Reader):
             # different options so we update them here with our current ones.
             wsdl.options = self.options
             for imp in wsdl.imports:
-                imp.imported.options = self.options
+                # nothing is kept for an import that brought in a schema
+                if imp.imported is not None:
+                    imp.imported.options = self.options
         return wsdl
 
     def __cache(self):
